@@ -3,6 +3,8 @@
 package main
 
 import (
+	"strings"
+
 	"verifharness/internal/rtgen"
 )
 
@@ -16,6 +18,17 @@ func main() {
 		func(x *rtgen.Ctx) {
 			x.NonTrivial = func(sc *rtgen.Scenario, o *rtgen.Obs) bool {
 				return o.Class() != "discard"
+			}
+			// Go-side copy of the oracle, so that a violation is reported with its concrete cell even
+			// though a failing kernel-checked lemma (exhaustive run) stops the evaluation of a shard.
+			x.After = func(id int, sc *rtgen.Scenario, o *rtgen.Obs, desc map[string]any) {
+				cls := o.Class()
+				if sc.Cell == nil || !(strings.HasPrefix(cls, "forward") || cls == "deliver") {
+					return
+				}
+				if !sc.Cell.Admissible() {
+					x.Run.Violate(id, "forwarded along an inadmissible (ingress, egress) link pair: "+sc.Kind+" -> "+cls, desc)
+				}
 			}
 			n := rtgen.Table(x, "table")
 			x.Run.Exhaustive = true
